@@ -141,6 +141,143 @@ async fn cell(addr: SocketAddr, set: Arc<CertSet>, topic: String, decoder: Strin
     }
 }
 
+/// `e2elab --subscriber-child <certdir> <addr> <topic>`: a real Subscriber (bytes codec) in a
+/// process of its own, so that an abort (stack overflow, allocation failure) is observable.
+/// Prints READY once it is attached and DONE <n> when it sees the item "end".
+pub fn subscriber_child(dir: &str, addr: &str, topic: &str) {
+    let rt = tokio::runtime::Builder::new_multi_thread().worker_threads(2).enable_all().build().expect("runtime");
+    rt.block_on(async {
+        let client = selium::custom()
+            .keep_alive(5_000u64)
+            .expect("keep alive")
+            .backoff_strategy(selium::keep_alive::BackoffStrategy::constant().with_max_attempts(0))
+            .endpoint(addr)
+            .with_certificate_authority(format!("{dir}/ca.der"))
+            .expect("ca")
+            .with_cert_and_key(format!("{dir}/localhost.der"), format!("{dir}/localhost.key.der"))
+            .expect("identity")
+            .connect()
+            .await
+            .expect("connect");
+        let mut sub = client.subscriber(topic).with_decoder(BytesCodec).open().await.expect("open");
+        println!("READY");
+        // polled from a spawned task, i.e. on a worker thread, as an application would
+        let n = tokio::spawn(async move {
+            let mut n = 0usize;
+            loop {
+                match sub.next().await {
+                    Some(Ok(b)) if &b[..] == b"end" => break,
+                    Some(Ok(_)) => n += 1,
+                    Some(Err(_)) => n += 1,
+                    None => break,
+                }
+            }
+            n
+        })
+        .await;
+        match n {
+            Ok(n) => println!("DONE {n}"),
+            Err(e) => {
+                println!("PANICKED {e}");
+                std::process::exit(3);
+            }
+        }
+    });
+    std::process::exit(0);
+}
+
+/// Many consecutive frames that yield no item (well-formed batches of zero messages), all readable
+/// at once, then a real item. The subscribing process must survive.
+async fn flood_cell(addr: SocketAddr, set: Arc<CertSet>, topic: String, frames: usize, kind: String) -> Result<String, Fail> {
+    use std::io::{BufRead, BufReader};
+    use std::process::{Command, Stdio};
+    let class = format!("flood:{kind}");
+    let setup = |what: &str, e: String| fail("setup", what, format!("{what}: {e}"));
+    let dir = crate::certs::write_dir(&set.ca, &set.client);
+    let exe = std::env::current_exe().map_err(|e| setup("exe", e.to_string()))?;
+    let mut child = Command::new(exe).args(["--subscriber-child", dir.to_str().unwrap(), &addr.to_string(), &topic]).stdin(Stdio::null()).stdout(Stdio::piped()).stderr(Stdio::null()).spawn().map_err(|e| setup("spawn", e.to_string()))?;
+    let stdout = child.stdout.take().unwrap();
+    let (tx, rx) = std::sync::mpsc::channel::<String>();
+    std::thread::spawn(move || {
+        for l in BufReader::new(stdout).lines().map_while(Result::ok) {
+            let _ = tx.send(l);
+        }
+    });
+    let wait_line = |prefix: &str, secs: u64| -> Option<String> {
+        let t0 = std::time::Instant::now();
+        while t0.elapsed() < Duration::from_secs(secs) {
+            if let Ok(l) = rx.recv_timeout(Duration::from_millis(100)) {
+                if l.starts_with(prefix) {
+                    return Some(l);
+                }
+            }
+        }
+        None
+    };
+    if wait_line("READY", 30).is_none() {
+        let _ = child.kill();
+        return Err(setup("child", "the subscriber process did not attach within 30 s".into()));
+    }
+    let raw = RawConn::connect(addr, &set.ca, Some(&set.client)).await.map_err(|e| setup("raw connect", e.to_string()))?;
+    let tn = TopicName::try_from(topic.as_str()).unwrap();
+    let (mut publ, first) = raw.register(Frame::RegisterPublisher(PublisherPayload { topic: tn, retention_policy: 0, operations: vec![] })).await.map_err(|e| setup("publisher", e.to_string()))?;
+    if first != Some(Frame::Ok) {
+        let _ = child.kill();
+        return Err(setup("publisher", format!("{first:?}")));
+    }
+    tokio::time::sleep(Duration::from_millis(200)).await;
+    let empty_batch = Bytes::from(0u64.to_be_bytes().to_vec());
+    for i in 0..frames {
+        let f = match kind.as_str() {
+            "empty-batches" => Frame::BatchMessage(empty_batch.clone()),
+            // alternating: empty batches with an occasional one-message batch
+            _ => {
+                if i % 1000 == 999 {
+                    let mut b = BytesMut::new();
+                    b.put_u64(1);
+                    b.put_u64(1);
+                    b.put_u8(b'x');
+                    Frame::BatchMessage(b.freeze())
+                } else {
+                    Frame::BatchMessage(empty_batch.clone())
+                }
+            }
+        };
+        // fed without flushing each: the frames arrive in large chunks and are readable together
+        if publ.feed(f).await.is_err() {
+            break;
+        }
+    }
+    let _ = publ.send(Frame::Message(MessagePayload { headers: None, message: Bytes::from_static(b"end") })).await;
+    // the child either reports DONE or dies
+    let t0 = std::time::Instant::now();
+    let status = loop {
+        match child.try_wait() {
+            Ok(Some(st)) => break Some(st),
+            Ok(None) if t0.elapsed() > Duration::from_secs(60) => break None,
+            Ok(None) => tokio::time::sleep(Duration::from_millis(50)).await,
+            Err(e) => return Err(setup("wait", e.to_string())),
+        }
+    };
+    let _ = std::fs::remove_dir_all(&dir);
+    match status {
+        None => {
+            let _ = child.kill();
+            let _ = child.wait();
+            Err(fail("subscriber-hung", &class, format!("after {frames} consecutive frames that yield no item the subscribing process neither yielded the next item nor ended within 60 s")))
+        }
+        Some(st) if st.success() => Ok("survived".into()),
+        Some(st) => {
+            use std::os::unix::process::ExitStatusExt;
+            Err(fail(
+                "subscriber-process-died",
+                &class,
+                format!("{frames} consecutive well-formed batch frames holding no message ({} bytes on the wire) relayed by the real server: the subscribing process ended with {st:?} (signal {:?})", frames * 17, st.signal()),
+            ))
+        }
+    }
+}
+
 fn cells() -> Vec<Value> {
     let mut v = Vec::new();
     let mut id = 0;
@@ -151,6 +288,10 @@ fn cells() -> Vec<Value> {
                 id += 1;
             }
         }
+    }
+    for (kind, frames) in [("empty-batches", 100_000usize), ("mostly-empty-batches", 100_000)] {
+        v.push(json!({"cell": id, "family": "flood", "kind": kind, "frames": frames}));
+        id += 1;
     }
     v
 }
@@ -164,6 +305,9 @@ pub async fn run(tier: &str, replaying: bool) -> ! {
         let set = set.clone();
         async move {
             let topic = format!("/c06ns/cell{}", c["cell"]);
+            if c["family"].as_str() == Some("flood") {
+                return (true, flood_cell(addr, set, topic, c["frames"].as_u64().unwrap() as usize, c["kind"].as_str().unwrap().to_string()).await);
+            }
             (true, cell(addr, set, topic, c["decoder"].as_str().unwrap().into(), c["decompression"].as_str().unwrap().into(), c["frame"].as_str().unwrap().into()).await)
         }
     })
@@ -172,7 +316,7 @@ pub async fn run(tier: &str, replaying: bool) -> ! {
     finish(
         rep,
         outs,
-        "every cell of decoder {String, Bytes, Bincode struct} x decompression {none, gzip, zlib, zstd, lz4, brotli} x frame kind {BatchMessage, Message}: a raw publisher sends 14 hostile payload classes (incl. a well-formed batch of zero messages and one of empty messages) (absurd counts and lengths in both byte orders, truncated batches, invalid UTF-8, compressed-looking garbage) followed by a valid batch through the real server to a real Subscriber; its task must not panic or hang, and a well-behaved round trip on the same topic must still work",
+        "every cell of decoder {String, Bytes, Bincode struct} x decompression {none, gzip, zlib, zstd, lz4, brotli} x frame kind {BatchMessage, Message}: a raw publisher sends 14 hostile payload classes (incl. a well-formed batch of zero messages and one of empty messages) (absurd counts and lengths in both byte orders, truncated batches, invalid UTF-8, compressed-looking garbage) followed by a valid batch through the real server to a real Subscriber; its task must not panic or hang, and a well-behaved round trip on the same topic must still work; plus flood cells: 100 000 consecutive well-formed batch frames holding no message (and the same with an occasional one-message batch), fed without per-frame flush so that they are readable together, to a real Subscriber running in a process of its own, which must survive and yield the item that follows",
         "end-to-end representative of each crashing class; the exhaustive input enumeration is engine W's",
         json!({"payload_classes": payloads().iter().map(|p| p.0).collect::<Vec<_>>()}),
         replaying,
